@@ -1,3 +1,4 @@
+pub mod c01;
 pub mod c02;
 pub mod c10;
 pub mod c11;
@@ -10,6 +11,7 @@ use crate::Params;
 
 pub fn run(p: &Params) -> Report {
     match p.property.as_str() {
+        "C01" => c01::run(p),
         "C02" => c02::run(p),
         "C10" => c10::run(p),
         "C11" => c11::run(p),
